@@ -102,7 +102,7 @@ func (e *Exec) callValues(st *State, cc *ssa.CallCommon, fn Value, args []Value,
 	}
 	// opaque function value: pure, arbitrary result, no effects (assumption recorded)
 	e.Externs["<opaque function value>"] = true
-	e.oblige(st, "nil", "call of function value "+srcText(e, cc.Value, 0), e.C.Neq(fv.ID, e.C.IntC(0)), pos)
+	e.oblige(st, "nil", "call of function value "+srcText(e, cc.Value, 0), e.C.Neq(fv.ID, e.C.BVC(uint64(0), 64)), pos)
 	sig := cc.Signature()
 	return e.freshResults(sig.Results(), "fnval")
 }
@@ -356,12 +356,31 @@ func (e *Exec) applyContract(st *State, spec *FuncSpec, sig *types.Signature, pa
 		if e.tryDefinitional(st, old, en, vars, short) {
 			continue
 		}
+		if e.tryMacroEquation(st, old, en, vars, short) {
+			continue
+		}
 		t := e.evalSpecBool(en, vars, st, old, "ensures of "+short)
 		e.assume(st, t)
 	}
 	for _, fr := range spec.Fresh {
 		se := &specEnv{e: e, st: st, old: old, vars: vars, bound: map[string]Value{}, where: "fresh of " + short}
-		e.assume(st, se.freshPred(se.eval(fr.Expr), fr.Expr))
+		fv := se.eval(fr.Expr)
+		// storage declared fresh by the callee belongs to this call: writable
+		switch x := fv.(type) {
+		case *SliceV:
+			for _, al := range x.Alts {
+				if al.Loc != nil {
+					al.Loc.Obj.Fresh = true
+				}
+			}
+		case *PtrV:
+			for _, al := range x.Alts {
+				if al.Loc != nil {
+					al.Loc.Obj.Fresh = true
+				}
+			}
+		}
+		e.assume(st, se.freshPred(fv, fr.Expr))
 	}
 	switch len(results) {
 	case 0:
@@ -545,7 +564,7 @@ func (e *Exec) lookupGlobal(name string) *ssa.Global {
 // frameCheck: a write to pre-existing memory must be covered by the assigns
 // clause of the function under verification.
 func (e *Exec) frameCheck(st *State, l *Loc, cond *smt.Term, what string, pos token.Pos) {
-	if !l.Obj.Pre {
+	if !l.Obj.Pre || l.Obj.Fresh {
 		return
 	}
 	if e.allowedWrite(l) {
@@ -652,7 +671,7 @@ func ifaceMethodKey(t types.Type, m *types.Func) string {
 
 func (e *Exec) ifacePayload(iv *IfaceV, T types.Type) Value {
 	c := e.C
-	id := c.IntC(int64(e.typeID(T)))
+	id := c.BVC(uint64(e.typeID(T)), 64)
 	var val Value
 	for i := len(iv.Alts) - 1; i >= 0; i-- {
 		al := iv.Alts[i]
@@ -719,3 +738,65 @@ func (e *Exec) selectOp(st *State, x *ssa.Select) Value {
 
 // FuncKey is the exported form of funcKey.
 func FuncKey(f *ssa.Function) string { return funcKey(f) }
+
+// macroEq is an assumed equation  guard ==> M(args) == rhs  between a
+// sequence-valued spec macro application and a sequence; later evaluations of
+// M on the same arguments are rewritten to rhs (under the guard).
+type macroEq struct {
+	macro string
+	keys  []int
+	guard *smt.Term
+	rhs   *SeqV
+	epoch int
+}
+
+func (e *Exec) valueKey(v Value) (int, bool) {
+	switch x := v.(type) {
+	case *PtrV:
+		return e.ptrAddr(x).ID, true
+	case Scalar:
+		return x.T.ID, true
+	case *SliceV:
+		return e.C.App("slkey", refSort, e.sliceBaseAddr(x), x.Len).ID, true
+	}
+	return 0, false
+}
+
+// tryMacroEquation recognises  [guard ==>] M(a1..an) == E  with M a macro.
+func (e *Exec) tryMacroEquation(st, old *State, en Clause, vars map[string]specVar, short string) bool {
+	x := en.Expr
+	var guardX SExpr
+	if b, ok := x.(*SBin); ok && b.Op == "==>" {
+		guardX, x = b.L, b.R
+	}
+	b, ok := x.(*SBin)
+	if !ok || b.Op != "==" {
+		return false
+	}
+	call, ok := b.L.(*SCall)
+	if !ok {
+		return false
+	}
+	if _, isMacro := e.DB.Macros[call.Fun]; !isMacro {
+		return false
+	}
+	se := &specEnv{e: e, st: st, old: old, vars: vars, bound: map[string]Value{}, where: "ensures of " + short + " `" + en.Text + "`"}
+	var keys []int
+	for _, a := range call.Args {
+		k, ok := e.valueKey(se.eval(a))
+		if !ok {
+			return false
+		}
+		keys = append(keys, k)
+	}
+	rhs, ok := se.eval(b.R).(*SeqV)
+	if !ok {
+		return false
+	}
+	g := e.C.True()
+	if guardX != nil {
+		g = se.evalBool(guardX)
+	}
+	e.macroEqs = append(e.macroEqs, macroEq{macro: call.Fun, keys: keys, guard: e.C.And(st.guard, g), rhs: rhs, epoch: e.preWrites})
+	return true
+}
